@@ -187,3 +187,12 @@ PROPS["C18"] = {
 PROPS["C05"]["tsan"] = {"quick": 15, "thorough": 200}
 PROPS["C10"] = dict(PROPS["C10"], tsan={"quick": 15, "thorough": 200})
 PROPS["C18"]["tsan"] = {"quick": 15, "thorough": 200}
+
+PROPS["C05"]["rule"] += (" Every fourth seed runs the build-system variant instead: world B histories (descriptions, simulated compilers on the lane "
+                         "queue) with BuildSystemFrontendDelegate::cancel() called from a foreign thread after n process starts; a cancelled build "
+                         "must report failure, spawn nothing after cancel() returned, and later builds in new frontends over the same database and "
+                         "half-written outputs must converge to clean-build contents.")
+PROPS["C05"]["components"] = dict(PROPS["C05"]["components"])
+PROPS["C05"]["components"]["real"] = list(PROPS["C05"]["components"]["real"]) + ["(every fourth seed) " + x for x in WORLD_B_COMPONENTS["real"][:6]]
+PROPS["C05"]["components"]["simulated"] = list(PROPS["C05"]["components"]["simulated"]) + ["(every fourth seed) file system, processes, pipes, signals"]
+PROPS["C05"]["components"]["stub"] = list(PROPS["C05"]["components"].get("stub", [])) + WORLD_B_COMPONENTS["stub"]
